@@ -125,12 +125,13 @@ def rule_db(chk, A):
         return
     a64db.run(chk, A)
     a64db.run_opcodes(chk, A)
+    a64db.run_widths(chk, A)
 
 
 def rule_imm(chk, A):
     """immediate clauses: 64-bit immediates are range-tested before they are narrowed, and condition codes are bounded by the enum"""
     emit = A["emit"]
-    n = narrow.run(chk, [emit], rule="R-NARROW-GUARDED", floor=12)
+    n = narrow.run(chk, [emit], rule="R-NARROW-GUARDED", floor=12, lossy=True)
     f = chk.facts("asmjit/arm/a64assembler.cpp", enums=r"asmjit::arm::CondCode$")
     en = f["enums"].get("asmjit::arm::CondCode")
     chk.need(en is not None, "enum arm::CondCode not found")
@@ -140,3 +141,89 @@ def rule_imm(chk, A):
                 "`x - c > K` idiom included) not larger than the largest arm::CondCode enumerator: no out-of-range condition is encoded")
     k = narrow.bounded_sink(chk, R, emit, "cond_code_to_opcode_field", limit, "the largest arm::CondCode")
     chk.floor(R + ":sinks", k, 4)
+
+
+VALIDATOR_FAMILIES = ("check_gp_id", "check_vec_id", "check_valid_regs")
+
+
+def rule_validators(chk, A):
+    """sibling agreement of the register-id validators (finite evaluation of their predicates, lib/predeval.py)"""
+    from . import predeval
+    R = "R-VALIDATOR-SIBLINGS"
+    chk.rule(R, "the overloads of each AArch64 register-id validator (check_gp_id, check_vec_id, check_valid_regs) accept the same set of ids "
+                "for every operand position (predicates folded over ids 0..63 and hi_id / register-type symbols in {0,31,63}), and never "
+                "an id that does not fit the 5-bit register field")
+    helpers = A["helpers"]
+    n = 0
+    for fam in VALIDATOR_FAMILIES:
+        sigs = []
+        for key, fn in sorted(helpers.items()):
+            if key.split("/")[0].split("::")[-1] != fam:
+                continue
+            p = predeval.Pred(fn, helpers)
+            if not p.usable():
+                chk.ob(R, "%s|evaluable" % key.replace("asmjit::a64::", ""), False, loc="%s:%d" % (UNIT, fn.line),
+                       detail="validator %s is no longer a single pure return expression over operand ids: its accepted ids cannot be decided" % key)
+                continue
+            for k in range(len(p.ops)):
+                try:
+                    sigs.append((key.replace("asmjit::a64::", ""), k, p.signature(k), fn))
+                except predeval.Unknown:
+                    chk.ob(R, "%s|operand%d|evaluable" % (key.replace("asmjit::a64::", ""), k), False, loc="%s:%d" % (UNIT, fn.line),
+                           detail="the predicate of %s for operand %d contains a construct the evaluator does not understand" % (key, k))
+        if not sigs:
+            continue
+        # reference = the most common signature (ties: the single-operand overload)
+        from collections import Counter
+        cnt = Counter(s[2] for s in sigs)
+        ref = max(cnt.items(), key=lambda t: (t[1], t[0] == sigs[0][2]))[0]
+        for key, k, sig, fn in sigs:
+            n += 1
+            fits = all(not sig[j * 64 + i] for j in range(len(predeval.SYMVALS)) for i in range(32, 64) if i != predeval.SYMVALS[j])
+            chk.ob(R, "%s|operand%d" % (key, k), sig == ref and fits, loc="%s:%d" % (UNIT, fn.line),
+                   detail="%s accepts for operand %d: %s; its siblings accept: %s%s" % (key, k, predeval.describe(sig), predeval.describe(ref),
+                                                                                       "" if fits else " (ids above 31 do not fit the register field)"),
+                   key="validator|%s|operand%d" % (key, k))
+    chk.floor(R + ":operand-positions", n, 10)
+
+
+# Arm ARM (DDI 0487) C6.2 "LDR (register)" / "STR (register)" / "PRFM (register)": option<2:0> = 010 UXTW, 011 LSL, 110 SXTW, 111 SXTX;
+# every other ShiftOp cannot be encoded as an index extend (0xFF = refused by the encoder).
+LDST_OPTION = {"kUXTW": 2, "kLSL": 3, "kSXTW": 6, "kSXTX": 7}
+
+
+def rule_tables(chk, A):
+    R = "R-TABLE-ORACLE"
+    chk.rule(R, "AArch64 assembler lookup tables equal an independent oracle for every entry: shift_op_to_ld_st_opt_map (Arm ARM option field of "
+                "register-offset loads/stores per ShiftOp), common_hi_reg_id_of_type_table (largest register id per RegType: 63 = ZR for Gp32/Gp64, "
+                "31 for the vector views, 0 otherwise)")
+    f = chk.facts(UNIT, tables=r"a64::(shift_op_to_ld_st_opt_map|common_hi_reg_id_of_type_table)$", enums=r"asmjit::arm::ShiftOp$|asmjit::RegType$")
+    T = f["tables"]
+    so = f["enums"].get("asmjit::arm::ShiftOp")
+    rt = f["enums"].get("asmjit::RegType")
+    chk.need(so is not None and rt is not None, "enums arm::ShiftOp / RegType not found")
+    m = T.get("asmjit::a64::shift_op_to_ld_st_opt_map")
+    chk.need(m is not None and isinstance(m.get("value"), list), "shift_op_to_ld_st_opt_map not dumped")
+    byval = {}
+    for n, v in so["enumerators"]:
+        byval.setdefault(v, n)
+    n_ent = 0
+    for i, got in enumerate(m["value"]):
+        name = byval.get(i)
+        want = LDST_OPTION.get(name, 0xFF)
+        n_ent += 1
+        chk.ob(R, "shift_op_to_ld_st_opt_map[%s]" % (name or i), got == want, loc=UNIT,
+               detail="shift_op_to_ld_st_opt_map[%s] is %d, the architecture's option field for that extend is %s" % (name or i, got, want if want != 0xFF else "none (0xFF)"))
+    h = T.get("asmjit::a64::common_hi_reg_id_of_type_table")
+    chk.need(h is not None, "common_hi_reg_id_of_type_table not dumped")
+    hv = h["value"]["_data"] if isinstance(h["value"], dict) else h["value"]
+    rtv = {}
+    for n, v in rt["enumerators"]:
+        rtv.setdefault(v, n)
+    for i, got in enumerate(hv):
+        name = rtv.get(i, "")
+        want = 63 if name in ("kGp32", "kGp64") else 31 if name in ("kVec8", "kVec16", "kVec32", "kVec64", "kVec128") else 0
+        n_ent += 1
+        chk.ob(R, "common_hi_reg_id_of_type_table[%s]" % (name or i), got == want, loc=UNIT,
+               detail="common_hi_reg_id_of_type_table[%s] is %d, expected %d" % (name or i, got, want))
+    chk.floor(R + ":a64-entries", n_ent, 40)
